@@ -207,7 +207,12 @@ impl Indexable for ast::Def {
 }
 
 fn index_name_value(value: ast::Value, ctx: &mut IndexCtx) -> Option<(EcoString, FileRange)> {
-    let name = value.inner_values().next()?;
+    let mut inner_values = value.inner_values();
+    let name = inner_values.next()?;
+    // whatever is pasted to the name is an ordinary value
+    for pasted_value in inner_values {
+        pasted_value.index(ctx);
+    }
     match name.simple_value()? {
         ast::SimpleValue::Identifier(id) => utils::identifier(&id, ctx),
         _ => None,
